@@ -352,9 +352,10 @@ class Model:
                 return self.rc_model.do_math(False, obj=True)
 
         self.rc_model.reset()
+        # the sense of the model: dual() reports shadow prices in that sense
+        self.rc_model.sign = self.sign
         if isinstance(self.obj, (Vars, VarSub, Affine, Convex, Real)):
             self.rc_model.obj = self.obj
-            self.rc_model.sign = self.sign
             more_roc = []
         elif isinstance(self.obj, RoAffine):
             obj_constr = (self.rc_model.vars[0] >= self.sign * self.obj)
